@@ -111,6 +111,9 @@ func lastSegT(cs ConnScript) int {
 }
 
 func genC08(tier string, rng *Rng) {
+	if runInChild() {
+		return
+	}
 	findDriver("C08")
 	var scs []*Scenario
 	hist := map[string]int{}
@@ -139,6 +142,62 @@ func genC08(tier string, rng *Rng) {
 		// the same, 499999 and 65536 cut into 7 uneven pieces, 5 ms apart
 		big := []Item{{Kind: "f", Data: payloadOfSize(499999)}, {Kind: "f", Data: payloadOfSize(65536)}, {Kind: "f", Data: payloadOfSize(1000)}}
 		add("sizes-cut", connWithCuts(ackItem(), big, []int{3, 4, 5, 70000, 300000, 500003, 500005, 500010, 565000}, 60, 5))
+	}
+
+	// payload sizes around every power of two from 2^8 to 2^18 (n-4 .. n+1) and a random sample of
+	// other sizes; each frame in one write, and each frame cut inside its header / payload
+	{
+		var sweep []int
+		for e := 8; e <= 18; e++ {
+			for d := -4; d <= 1; d++ {
+				sweep = append(sweep, 1<<uint(e)+d)
+			}
+		}
+		nr := 10
+		if tier == "thorough" {
+			nr = 60
+		}
+		for i := 0; i < nr; i++ {
+			sweep = append(sweep, rng.Range(2, 1<<uint(rng.Range(8, 17))))
+		}
+		var group []int
+		sum := 0
+		flush := func() {
+			if len(group) == 0 {
+				return
+			}
+			var rest []Item
+			for _, n := range group {
+				rest = append(rest, Item{Kind: "f", Data: payloadOfSize(n)})
+			}
+			// whole frames, 10 ms apart
+			cs := ConnScript{Items: append([]Item{ackItem()}, rest...), End: "none", Segs: []SegCut{{0, 6}}}
+			for i, it := range rest {
+				cs.Segs = append(cs.Segs, SegCut{300 + 10*i, len(it.Encode())})
+			}
+			add("size-sweep", cs)
+			// every frame cut inside its header and at a random point of its payload
+			if tier == "thorough" || sum < 300000 || rng.Intn(3) == 0 {
+				var cuts []int
+				pos := 0
+				for _, it := range rest {
+					l := len(it.Encode())
+					cuts = append(cuts, pos+rng.Range(1, 3), pos+4+rng.Range(1, l-5))
+					pos += l
+					cuts = append(cuts, pos)
+				}
+				add("size-sweep-cut", connWithCuts(ackItem(), rest, cuts, 300, 3))
+			}
+			group, sum = nil, 0
+		}
+		for _, n := range sweep {
+			if sum+n > 600000 {
+				flush()
+			}
+			group = append(group, n)
+			sum += n
+		}
+		flush()
 	}
 
 	// every single and double cut point of a short stream, binary and ASCII
